@@ -216,7 +216,7 @@ __CPROVER_assigns(MT_RS(this_)->_ptr != 0: __CPROVER_object_whole(MT_RS(this_)->
 __CPROVER_frees(MT_RS(this_)->_ptr)
 __CPROVER_ensures(cv_exc_pending == 0)
 __CPROVER_ensures(__CPROVER_return_value != 0 && __CPROVER_rw_ok(__CPROVER_return_value, sz + MT_TRAILER))   /* frame + trailer fit     */
-__CPROVER_ensures(MT_OWNER(__CPROVER_return_value, sz) == this_)                                             /* owner recorded behind the frame */
+__CPROVER_ensures(MT_OWNER(__CPROVER_return_value, sz) == (MT_SEEN_BUSY == 0 ? this_ : (MT *)0))              /* the block says where it belongs: the storage for the own block, nullptr for a heap block */
 __CPROVER_ensures(MT_BUSY(this_) == 1)                                                                       /* block is taken from now on */
 /* flag was free: the caller gets the own block (grown if needed exactly like reusable_storage for sz + trailer) */
 __CPROVER_ensures(MT_SEEN_BUSY == 0 ==> (__CPROVER_return_value == MT_RS(this_)->_ptr && RS_ALLOC_POST(MT_RS(this_), sz + MT_TRAILER, MT_P0, MT_C0)))
@@ -248,7 +248,7 @@ void mt_dealloc(cv_i8 *ptr, cv_i64 sz)
 __CPROVER_requires(PRE0 && SZ_OK(sz))
 __CPROVER_requires(gh_n >= sz + MT_TRAILER && gh_n < SZMAX + 64 && __CPROVER_is_fresh(ptr, gh_n))            /* the block alloc(sz) returned   */
 __CPROVER_requires(__CPROVER_is_fresh(gh_me, sizeof(MT)))                                                    /* its owner is still alive (documented) */
-__CPROVER_requires(__CPROVER_pointer_equals(MT_OWNER(ptr, sz), gh_me))                                       /* and is recorded behind the frame      */
+__CPROVER_requires(gh_own <= 1 && (gh_own ==> __CPROVER_pointer_equals(MT_OWNER(ptr, sz), gh_me)) && (!gh_own ==> MT_OWNER(ptr, sz) == (MT *)0))   /* trailer: the storage for its own block, nullptr for a heap fallback */
 __CPROVER_requires(MT_BUSY(gh_me) <= 1)
 __CPROVER_requires(gh_own <= 1 && (gh_own == 1) == (MT_RS(gh_me)->_ptr == ptr))
 __CPROVER_requires(gh_own ? MT_RS(gh_me)->_capacity == gh_n : gh_n == sz + MT_TRAILER)                       /* own block: capacity bytes; fallback: sz+8 */
